@@ -87,6 +87,19 @@ theorem literals_not_idents :
   constructor <;> intro hw <;> subst hw <;>
     (unfold lexWord at h; split at h <;> simp [wordStrTerminals, ambiguousLiterals, List.find?] at h)
 
+/-- The converse for every other word: wherever an identifier is acceptable, a word that is not exactly one of
+`true`, `false`, `null`, `in` stays an identifier — in particular words that merely *begin* with a keyword
+(`nullable`, `true_positives`, `falseAlarms`, `inn`), in any parser state and whatever the word is. Together with
+`literals_not_idents` this decides the type of every word the IDENT pattern matches. -/
+theorem words_beside_keywords_are_idents (acc : List TK) (w : String) (hacc : TK.IDENT ∈ acc)
+    (h1 : w ≠ "true") (h2 : w ≠ "false") (h3 : w ≠ "null") (h4 : w ≠ "in") :
+    lexWord acc w = some .IDENT := by
+  unfold lexWord
+  simp [hacc, wordStrTerminals, ambiguousLiterals, List.find?, Ne.symm h1, Ne.symm h2, Ne.symm h3, Ne.symm h4]
+
+example : lexWord [.IDENT, .LPAR, .NULL_LIT, .BOOL_LIT] "nullable" = some .IDENT := by decide
+example : ∀ acc ∈ identAcceptSets, lexWord acc "true_positives" = some .IDENT := by decide
+
 /-- the literal rule has no IDENT alternative and the identifier rules no literal one: a token
 typed BOOL_LIT/NULL_LIT can only become a `literal` node -/
 theorem literal_tokens_only_in_literal :
